@@ -241,3 +241,199 @@ func (c *Ctx) asn1WriterRules() {
 		c.Undecided("R-SIBLING", "asn1.makeField", "anchor", "-", "not found")
 	}
 }
+
+// issuerSearchRules: Graph.AddCert indexes every new node under its subject on every path, and looks
+// for issuers among all nodes carrying the issuer's name (shared by C10 and C11).
+func issuerSearchRules(c *Ctx) {
+	w := c.W
+	fn := w.Fn("(*z/verifier.Graph).AddCert")
+	if fn == nil {
+		c.Undecided("R-PRE", "verifier.Graph.AddCert", "anchor", "-", "not found")
+		return
+	}
+	// (a) a created node reaches all three indexes before AddCert returns
+	n := 0
+	for _, b := range fn.Blocks {
+		for _, in := range b.Instrs {
+			al, ok := in.(*ssa.Alloc)
+			if !ok || !al.Heap || typeStr(al.Type()) != "*verifier.GraphNode" {
+				continue
+			}
+			n++
+			node := ssa.Value(al)
+			holds := func(v ssa.Value) bool {
+				for x := range backClosure(v, func(y ssa.Value) []ssa.Value {
+					// elements appended
+					if cl, ok := y.(*ssa.Call); ok {
+						if bi, ok := cl.Call.Value.(*ssa.Builtin); ok && bi.Name() == "append" {
+							return cl.Call.Args[1:]
+						}
+					}
+					if sl, ok := y.(*ssa.Slice); ok {
+						if a2, ok := sl.X.(*ssa.Alloc); ok {
+							var out []ssa.Value
+							for _, r := range *a2.Referrers() {
+								if ia, ok := r.(*ssa.IndexAddr); ok {
+									for _, r2 := range *ia.Referrers() {
+										if st, ok := r2.(*ssa.Store); ok {
+											out = append(out, st.Val)
+										}
+									}
+								}
+							}
+							return out
+						}
+					}
+					return nil
+				}) {
+					if x == node {
+						return true
+					}
+				}
+				return false
+			}
+			for _, idx := range []string{"Graph.nodesBySubject", "Graph.nodesBySubjectAndKey", "Graph.nodes"} {
+				field := idx
+				barrier := func(i2 ssa.Instruction) bool {
+					switch x := i2.(type) {
+					case *ssa.MapUpdate:
+						if fa := loadedField(x.Map); fa != nil && fieldName(fa) == field {
+							return holds(x.Value)
+						}
+					case *ssa.Store:
+						if fa, ok := x.Addr.(*ssa.FieldAddr); ok && fieldName(fa) == field {
+							return holds(x.Val)
+						}
+					}
+					return false
+				}
+				c.Sites++
+				c.Cut(CutSpec{Rule: "R-PRE", Fn: fn, Label: fmt.Sprintf("a newly created node #%d is entered into %s on every path", n, field), StartAfter: in,
+					Target: func(i2 ssa.Instruction, _ resolver) bool { _, ok := i2.(*ssa.Return); return ok }, Barrier: barrier, Cut: func(Fact) bool { return false }, MinTargets: -1})
+			}
+		}
+	}
+	c.Check(n == 1, "R-PRE", "verifier.Graph.AddCert", "node creation site found", w.Pos(fn.Pos()), fmt.Sprint(n))
+	// (b) the issuer search ranges over every node with the issuer's name
+	for _, in := range callsIn(fn, "z/x509.CheckSignatureFromKey") {
+		// the loop around the first signature check
+		var hdr *ssa.BasicBlock
+		for _, l := range natLoops(fn) {
+			if l.blocks[in.Block()] && (hdr == nil || hdr.Dominates(l.header)) {
+				hdr = l.header
+			}
+		}
+		if hdr == nil {
+			continue
+		}
+		ranged := ""
+		if ifi, ok := hdr.Instrs[len(hdr.Instrs)-1].(*ssa.If); ok {
+			for _, f := range condFacts(ifi.Cond, true, idRes) {
+				if f.Op == "lt" && f.Y != nil {
+					if a, ok := lenArg(f.Y); ok {
+						ranged = Expr(a)
+					}
+				}
+			}
+		}
+		c.Sites++
+		if strings.Contains(ranged, "missingIssuerNode") || strings.Contains(ranged, ".edges") {
+			continue // the dangling-edge fix-up loop
+		}
+		c.Check(ranged == "g.nodesBySubject[string(c.RawIssuer)]#0" || ranged == "g.nodesBySubject[string(c.RawIssuer)]", "R-PROV", "verifier.Graph.AddCert", "issuer candidates are all nodes indexed under the certificate's issuer name", w.InstrPos(in), ranged)
+	}
+}
+
+func c10Extras(c *Ctx) { issuerSearchRules(c) }
+
+func c11Extras(c *Ctx) {
+	w := c.W
+	issuerSearchRules(c)
+	// a path that already ends in a root edge is emitted whatever its length: every return of
+	// continueWalking that did not send the chain saw lastEdge.root == false
+	fn := w.Fn("(*z/verifier.Graph).continueWalking")
+	if fn == nil {
+		c.Undecided("R-PRE", "verifier.continueWalking", "anchor", "-", "not found")
+		return
+	}
+	var sends []ssa.Instruction
+	for _, b := range fn.Blocks {
+		for _, in := range b.Instrs {
+			if s, ok := in.(*ssa.Send); ok && Expr(s.X) == "soFar" {
+				sends = append(sends, in)
+			}
+		}
+	}
+	c.Check(len(sends) == 1, "R-PRE", "verifier.continueWalking", "emission site found", w.Pos(fn.Pos()), fmt.Sprint(len(sends)))
+	c.Cut(CutSpec{Rule: "R-PRE", Fn: fn, Label: "a chain whose last edge is a root is emitted before any other exit (the depth limit only stops extension)", Barrier: func(in ssa.Instruction) bool {
+		for _, s := range sends {
+			if s == in {
+				return true
+			}
+		}
+		return false
+	}, Target: func(in ssa.Instruction, _ resolver) bool { _, ok := in.(*ssa.Return); return ok }, Cut: factExpr("false", "lastEdge.root", ""), MinTargets: -1})
+}
+
+// hostnameRules: the two documented separations of VerifyHostname (shared by C09 and C12).
+func hostnameRules(c *Ctx) {
+	w := c.W
+	fn := w.Fn("(*z/x509.Certificate).VerifyHostname")
+	if fn == nil {
+		c.Undecided("R-CUT", "x509.VerifyHostname", "anchor", "-", "not found")
+		return
+	}
+	// (a) once the host parsed as an IP address, no name matching is reachable
+	var ipEdges []EdgeRef
+	for _, b := range fn.Blocks {
+		ifi, ok := b.Instrs[len(b.Instrs)-1].(*ssa.If)
+		if !ok {
+			continue
+		}
+		for si := 0; si < 2; si++ {
+			for _, f := range condFacts(ifi.Cond, si == 0, idRes) {
+				if cl := callOf(f.X); f.Op == "nonnil" && cl != nil && calleeName(&cl.Call) == "net.ParseIP" {
+					ipEdges = append(ipEdges, EdgeRef{B: b, Succ: si})
+				}
+			}
+		}
+	}
+	c.Check(len(ipEdges) == 1, "R-CUT", "x509.VerifyHostname", "the IP-literal branch found", w.Pos(fn.Pos()), fmt.Sprint(len(ipEdges)))
+	if len(ipEdges) == 1 {
+		c.Cut(CutSpec{Rule: "R-CUT", Fn: fn, Label: "an IP-literal host is never matched against DNS names or the common name", StartEdges: ipEdges,
+			Target: func(in ssa.Instruction, _ resolver) bool {
+				cc := callCommon(in)
+				return cc != nil && strings.HasSuffix(calleeName(cc), ".matchHostnames")
+			}, Cut: func(Fact) bool { return false }, MinTargets: -1})
+		c.Cut(CutSpec{Rule: "R-CUT", Fn: fn, Label: "an IP-literal host is accepted only through ip.Equal on an IP SAN", StartEdges: ipEdges, Target: SuccessReturn(0, nil), MinTargets: -1,
+			Cut: func(f Fact) bool {
+				cl := callOf(f.X)
+				return f.Op == "true" && cl != nil && calleeName(&cl.Call) == "(net.IP).Equal"
+			}})
+	}
+	// (a') name matching is reached only after the host was found not to be an IP literal
+	k := 0
+	for _, in := range callsIn(fn, "z/x509.matchHostnames") {
+		k++
+		c.Sites++
+		c.Cut(CutSpec{Rule: "R-CUT", Fn: fn, Label: fmt.Sprintf("name matching #%d is reached only for a host that did not parse as an IP address", k), Target: isInstr(in), Cut: func(f Fact) bool {
+			cl := callOf(f.X)
+			return f.Op == "nil" && cl != nil && calleeName(&cl.Call) == "net.ParseIP"
+		}})
+	}
+	// (b) the common name is consulted only when the certificate has no subjectAltName extension at all
+	n := 0
+	for _, in := range callsIn(fn, "z/x509.matchHostnames") {
+		cc := callCommon(in)
+		if !strings.Contains(Expr(cc.Args[0]), "CommonName") {
+			continue
+		}
+		n++
+		c.Sites++
+		c.Cut(CutSpec{Rule: "R-CUT", Fn: fn, Label: "the common name is matched only if the certificate has no SAN extension (not merely no DNS SAN)", Target: isInstr(in), Cut: func(f Fact) bool {
+			cl := callOf(f.X)
+			return f.Op == "false" && cl != nil && strings.HasSuffix(calleeName(&cl.Call), ").hasSANExtension")
+		}})
+	}
+	c.Check(n == 1, "R-CUT", "x509.VerifyHostname", "common-name fallback site found", w.Pos(fn.Pos()), fmt.Sprint(n))
+}
